@@ -40,16 +40,19 @@ Definition e_kinds : str := list_ascii_of_string "kinds index out of range".
 (* RegexSet::new on the texts: every one must compile *)
 Definition regex_set (pats : list str) : option (list re) := all_some (map parse pats).
 
-Definition compile_filters (fs : list str) : outcome filters :=
+(* [w] = how the pattern text is wrapped before it is handed to the regex crate *)
+Definition compile_filters_w (w : str -> str) (fs : list str) : outcome filters :=
   match all_some (map split_sign fs) with
   | None => Err e_sign                       (* checked for every filter before any regex is compiled *)
   | Some sp =>
-      let pats := map (fun x => wrap (snd x)) sp in
+      let pats := map (fun x => w (snd x)) sp in
       match regex_set pats with
       | None => Err e_regex
       | Some _ => Ok (mkFilters pats (map fst sp))
       end
   end.
+
+Definition compile_filters : list str -> outcome filters := compile_filters_w wrap.
 
 (* the loop over RegexSet matches in index order; kinds[idx] panics when out of range *)
 Fixpoint last_match (kinds : list sign) (res : list re) (p : str) (st : sign) : outcome sign :=
@@ -78,6 +81,8 @@ Definition doer_verdict (fl : filters) (p : str) : outcome sign :=
 (* the boss keeps the set it compiled itself (local doers receive it unserialised) *)
 Definition boss_verdict (fs : list str) (p : str) : outcome sign := obind (compile_filters fs) (fun fl => doer_verdict fl p).
 Definition model_verdict := boss_verdict.
+(* the pinned tree, before the fix of F1 *)
+Definition old_verdict (fs : list str) (p : str) : outcome sign := obind (compile_filters_w wrap_old fs) (fun fl => doer_verdict fl p).
 
 (* ---- the documented rule, over each pattern's own AST ---- *)
 Fixpoint last_matching (fs : list (sign * re)) (p : str) : option sign :=
